@@ -101,7 +101,8 @@ CLAIMED["C01"] = (
     "executed against the real binaries on a spread of README configurations (all 50 in the thorough tier) and each flow's observations (position-checked spans, dial, ends) are validated by TLC. "
     "RelayAbs includes HalfCloseComplete (a side that only finished sending is owed the complete answer; Lapse after silence longer than the close grace); TcpRelay has bounded kernel queues and "
     "sink write buffers, link kind ws and the deviations WsCloseEndsBoth (open finding), CloseSkipsFlush, NoKeepAlive; further script families on real processes: half-close then answer, "
-    "back-pressure (slow reader, 20+ MB, writer closes at once), slow drain beyond the close grace, flows idle for 32 s before their first payload.",
+    "back-pressure (slow reader, 20+ MB, writer closes at once), slow drain beyond the close grace, flows idle for 32 s before their first payload; after a reset by the target "
+    "whose writes had all been acknowledged (observer: SIOCOUTQ = 0) the answer is owed in full (TgtCloseA, deviation ServerForwardsErr).",
     TBE, "5.1")
 CLAIMED["C15"] = (
     "model_checking", "TLA+ TcpRelay with link-failure action (TLC: PromptEnd / Released / FaultEnds as liveness under weak fairness, deviations) + SinkClose (close under back-pressure; schedules replayed on the real WebSocketFramed sink, validated against TraceSinkClose), ending / hold / slow-drain / slow-link scripts executed on real client/server processes behind a middlebox, every flow and the Idle/Held/Settled descriptor counts validated by TLC against TraceRelay",
